@@ -33,7 +33,9 @@ META = dict(
          "a bounded-progress rule (no return after 6 s, then >= 3 stack samples 2 s apart in the same paramiko "
          "function with the same request in flight while the process burns CPU => 'did not return' VIOLATION "
          "with file and request; a starved or slow worker is inconclusive), so a "
-         "non-returning get_modulus is a verdict, not a shard timeout. Holds on the executions produced.",
+         "non-returning get_modulus is a verdict, not a shard timeout. Re-read histories keep ONE pack alive over "
+         "2-4 read_file calls (next file = pruned / superset / disjoint / empty / same) with requests aimed at sizes "
+         "only an earlier file had: every answer must come from the file read last. Holds on the executions produced.",
     note="'Size' is the modulus' real bit length (what the client can measure), which the moduli file "
          "understates by one. Valid lines are valid under every reading (type 2, strong test, no 'composite' bit, "
          ">= 100 tries) and invalid lines invalid under every reading; the grey zone (type > 2, composite bit, "
@@ -48,6 +50,9 @@ META = dict(
 
 def shards(tier):
     return 4 if tier == "quick" else 8
+
+SKIP = [0]  # shard s leaves out the samples of its first SKIP strata, so that evidence shows every stratum
+
 
 
 # generous per-shard caps: expiry means INCONCLUSIVE, never a verdict (the box is shared and can be 10x slow)
@@ -160,8 +165,11 @@ def request_shape(lo, prefer, hi):
     return "min<=preferred<=max"
 
 
-def judge(ref, lo, prefer, hi, got):
-    """-> (signature, what) or None."""
+STALE = "a group from an earlier read_file that the current moduli file does not contain was offered"
+
+
+def judge(ref, lo, prefer, hi, got, earlier=()):
+    """-> (signature, what) or None. `earlier`: moduli accepted from files this pack had read before."""
     accepted, rejected = ref
     try:
         g, p = got
@@ -169,6 +177,8 @@ def judge(ref, lo, prefer, hi, got):
         return "get_modulus returned something that is not a (generator, modulus) pair", repr(got)[:100]
     pairs = {(gg if gg != 0 else 2, pp) for gg, pp in accepted} | set(accepted)
     if (g, p) not in pairs:
+        if p in earlier and p not in {pp for _, pp in accepted}:
+            return STALE, "offered %d-bit modulus belongs to a file read before the current one" % p.bit_length()
         if p in rejected and p not in {pp for _, pp in accepted}:
             return ("a moduli line failing the %s requirement was offered" % rejected[p],
                     "offered modulus comes from a rejected line")
@@ -231,7 +241,7 @@ def offer_follows_reference_selection(self, min, prefer, max, result):
         REC.seen("get_modulus_calls_without_reference")
         return True
     REC.seen("offer_follows_reference_selection")
-    v = judge(ref, min, prefer, max, result)
+    v = judge(ref, min, prefer, max, result, getattr(self, "_vf_earlier", ()))
     if v is None:
         return True
     REC.fail(v[0], v[1], dict(request=[min, prefer, max], file=getattr(self, "_vf_text", None),
@@ -370,6 +380,10 @@ def run_file(ctx, rng, tmpdir, nreq, fileno):
                           % (what, cur, SAMPLES, SAMPLE_GAP, FIRST_WAIT), wit)
         REC.drain(ctx)
         return
+    judge_results(ctx, results, text, accepted, rejected, info, sizes, fileno, (), fileno < 1 and SKIP[0] <= 0)
+
+
+def judge_results(ctx, results, text, accepted, rejected, info, sizes, fileno, earlier, sample_ok, sample_kind="direct"):
     if results and results[0][0] == "read_file":
         e = results[0][2]
         ctx.violation("exception from read_file: " + exc_signature(e), repr(e)[:200], dict(file=text))
@@ -381,9 +395,9 @@ def run_file(ctx, rng, tmpdir, nreq, fileno):
         lo, prefer, hi = req
         shape = request_shape(lo, prefer, hi)
         ctx.case(("req", ctx.shard, fileno, lo, prefer, hi), nontrivial=bool(accepted),
-                 sample=dict(kind="direct", file=text, request=[lo, prefer, hi], accepted_sizes=sizes,
+                 sample=dict(kind=sample_kind, file=text, request=[lo, prefer, hi], accepted_sizes=sizes,
                              mislabel=info["mislabel"], lengths_only_on_mislabelled_lines=info["dead_lengths"],
-                             rule_gives=ref_select(accepted, lo, prefer, hi)) if fileno < 1 and k == 0 else None)
+                             rule_gives=ref_select(accepted, lo, prefer, hi)) if sample_ok and k == 0 else None)
         if ref_would_touch(req, info):
             ctx.count("requests_aimed_at_a_fully_mislabelled_length")
         if kind == "breach":
@@ -403,13 +417,14 @@ def run_file(ctx, rng, tmpdir, nreq, fileno):
         ctx.count("offers_judged")
         ctx.count("requests_" + shape.replace(" ", "_").replace("<=", "le").replace("<", "lt").replace(">", "gt"))
         if not accepted:
-            ctx.violation("a modulus was offered although every line of the file must be rejected",
+            stale = isinstance(got, tuple) and len(got) == 2 and got[1] in earlier
+            ctx.violation(STALE if stale else "a modulus was offered although every line of the file must be rejected",
                           "offered %d-bit modulus" % got[1].bit_length(), dict(file=text))
             continue
         if ref_select(accepted, lo, prefer, hi) is not None:
             ctx.count("offers_with_in_range_size")
         # the driver judges too (does not rely on the wrapper being reached)
-        v = judge((accepted, rejected), lo, prefer, hi, got)
+        v = judge((accepted, rejected), lo, prefer, hi, got, earlier)
         if v is not None:
             ctx.violation(v[0], v[1], dict(file=text, request=[lo, prefer, hi]))
     REC.drain(ctx)
@@ -419,6 +434,111 @@ def ref_would_touch(req, info):
     """Would a selection that wrongly kept the mislabelled lengths pick one of them for this request?"""
     lo, prefer, hi = req
     return any(lo <= L <= hi for L in info["dead_lengths"])
+
+
+# --------------------------------------------------------------------------
+# a long-lived pack that re-reads files: answers depend on the LAST file only
+# --------------------------------------------------------------------------
+def usable_moduli(text):
+    """Hex moduli standing in the last field of the non-comment lines of `text` (which generated lines survive)."""
+    out = set()
+    for line in text.split("\n"):
+        line = line.strip()
+        if line and not line.startswith("#"):
+            out.add(line.split()[-1])
+    return out
+
+
+def derive_file(rng, kind, prev):
+    text, accepted, rejected, info = prev
+    if kind == "same":
+        return prev
+    if kind == "pruned":
+        kept = [ln for ln in text.split("\n") if rng.random() < 0.5]
+        t = "\n".join(kept) + "\n"
+    elif kind == "superset":
+        t2, a2, r2, _ = make_file(rng)
+        t = text.rstrip("\n") + "\n" + t2
+        accepted, rejected = accepted + a2, {**rejected, **r2}
+    elif kind == "empty":
+        bad = [ln for ln in text.split("\n") if ln.strip() and ln.split()[-1] in {"%X" % p for p in rejected}]
+        t = rng.choice(["", "\n", "# moduli file pruned by the administrator\n", "\n".join(bad) + "\n"])
+    else:  # disjoint / replaced: a fresh file
+        return make_file(rng)
+    have = usable_moduli(t)
+    acc = [(g, p) for g, p in accepted if "%X" % p in have]
+    rej = {p: why for p, why in rejected.items() if "%X" % p in have}
+    good = {p.bit_length() for g, p in acc}
+    dead = sorted({p.bit_length() for p, why in rej.items() if why == "bitlength"} - good)
+    return t, acc, rej, dict(mislabel="none", some_mislabelled=False, dead_lengths=dead)
+
+
+def reread_history(ctx, rng, tmpdir, hi, nreq):
+    pack = ModulusPack()
+    earlier = set()
+    cur = make_file(rng)
+    kinds = ["first"]
+    for step in range(rng.randint(2, 4)):
+        if step:
+            kind = rng.choice(["pruned", "pruned", "disjoint", "superset", "empty", "empty", "same"])
+            cur = derive_file(rng, kind, cur)
+            kinds.append(kind)
+        text, accepted, rejected, info = cur
+        path = os.path.join(tmpdir, "moduli-reread")
+        with open(path, "w") as f:
+            f.write(text)
+        sizes = sorted({p.bit_length() for g, p in accepted})
+        # aim at the sizes of the current file AND at sizes only earlier files had
+        gone = sorted({p.bit_length() for p in earlier} - set(sizes))
+        around = sorted(set(sizes) | set(gone) | set(info["dead_lengths"])) or [rng.randint(16, 400)]
+        requests = [rand_request(rng, around) for _ in range(nreq)]
+        for k, L in enumerate(gone[:4]):
+            requests[k] = rng.choice([(L, L, L), (L - 1, L, L + 1), (0, L, 0xFFFFFFFF)])
+        pack._vf_ref = (accepted, rejected)
+        pack._vf_text = text
+        pack._vf_earlier = frozenset(earlier)
+        state = dict(current="read_file", done=0)
+        results = []
+
+        def work():
+            try:
+                pack.read_file(path)
+            except Exception as e:
+                results.append(("read_file", "exc", e))
+                return
+            for req in requests:
+                state["current"] = req
+                try:
+                    results.append((req, "ok", pack.get_modulus(*req)))
+                except gacontract.Breach as e:
+                    results.append((req, "breach", e))
+                except Exception as e:
+                    results.append((req, "exc", e))
+                state["done"] += 1
+            state["current"] = "finished"
+
+        stuck = run_guarded(work, state)
+        if stuck is not None:
+            if stuck == "slow":
+                ctx.inconclusive("re-read batch still progressing after %d s" % GIVE_UP)
+            else:
+                HANG["seen"] += 1
+                ctx.violation("%s did not return (spinning in %s) on a pack that re-read a file"
+                              % ("read_file" if state["current"] == "read_file" else "get_modulus", stuck),
+                              "request %r, file sequence %r" % (state["current"], kinds), dict(file=text, sequence=kinds))
+            REC.drain(ctx)
+            return
+        if step:
+            ctx.count("rereads_judged")
+            ctx.count("rereads_" + kinds[-1])
+            ctx.count("requests_aimed_at_a_size_only_an_earlier_file_had", sum(1 for r in requests if any(r[0] <= L <= r[2] for L in gone)))
+            ctx.count("requests_after_a_reread", len(requests))
+        judge_results(ctx, results, text, accepted, rejected, info, sizes, ("reread", hi, step), frozenset(earlier),
+                      hi < 1 and step == 1, sample_kind="re-read history: " + " -> ".join(kinds))
+        earlier |= {p for g, p in accepted}
+        if ctx.violations:
+            return
+    ctx.count("reread_histories_run")
 
 
 # --------------------------------------------------------------------------
@@ -501,6 +621,7 @@ def session_sample(ctx, rng, n, tmpdir):
 
 
 def run(ctx):
+    SKIP[0] = ctx.shard % 3
     rng = ctx.rng
     install_contracts()
     ctx.note("contract_backend", gacontract.BACKEND)
@@ -514,6 +635,10 @@ def run(ctx):
                 # further one would add a thread that eats the interpreter. The shard ends here, VIOLATED.
                 ctx.count("files_skipped_after_a_hang", nfiles - fileno - 1)
                 break
+        for hi in range(ctx.pick(150, 1200)):
+            if HANG["seen"]:
+                break
+            reread_history(ctx, rng, tmpdir, hi, ctx.pick(16, 24))
         if ctx.violations:
             ctx.count("session_sample_skipped_after_violation")  # a server thread must not meet the same hang
         else:
@@ -526,6 +651,14 @@ def run(ctx):
     ctx.require("contract_offer_follows_reference_selection", 10000)
     ctx.require("lines_rejected_by_reference", 500)
     ctx.require("session_gex_groups_judged", 4)
+    ctx.require("reread_histories_run", 400)
+    ctx.require("rereads_judged", 800)
+    ctx.require("rereads_pruned", 150)
+    ctx.require("rereads_empty", 150)
+    ctx.require("rereads_disjoint", 60)
+    ctx.require("rereads_superset", 60)
+    ctx.require("requests_after_a_reread", 10000)
+    ctx.require("requests_aimed_at_a_size_only_an_earlier_file_had", 2000)
     ctx.require("guarded_batches_run", 500)
     ctx.require("files_with_some_mislabelled_size_lines", 300)
     ctx.require("files_with_every_line_of_one_length_mislabelled", 200)
